@@ -83,7 +83,7 @@ Fixpoint heap_down (fuel i n : nat) (h : list entry) : list entry * nat :=
 Definition heap_push (x : entry) (h : list entry) : list entry :=
   let h' := h ++ [x] in heap_up (length h') (length h) h'.
 
-(* heap.Pop; None = index out of range panic on the empty heap *)
+(* heap.Pop; None = the heap is empty (the caller checks Len() > 0 first) *)
 Definition heap_pop (h : list entry) : option (entry * list entry) :=
   match h with
   | [] => None
@@ -144,15 +144,18 @@ Definition ck_track_remove (k : bytes) (s : lfu) : lfu :=
 Definition with_heap (h : list entry) (s : lfu) : lfu :=
   {| l_bysize := l_bysize s; l_max := l_max s; l_keys := l_keys s; l_cur := l_cur s; l_heap := h |}.
 
-(* the eviction loop of TrackSetAndReturnEvictedKeys; None = heap.Pop on an empty heap *)
+(* the eviction loop of TrackSetAndReturnEvictedKeys (after /repo 47ce3e3):
+     for ShouldEvict() && heap.Len() > 0 { pop; checker.TrackRemove; append }
+   [heap_pop] answers None exactly on the empty heap, which now ends the loop.  None (= panic) remains only for
+   exhausted fuel, which C19_no_panic shows unreachable (every iteration shortens the heap by one). *)
 Fixpoint evict_loop (fuel : nat) (s : lfu) (acc : list bytes) : option (list bytes * lfu) :=
   if should_evict s then
-    match fuel with
-    | O => None
-    | S f =>
-        match heap_pop (l_heap s) with
-        | None => None
-        | Some (e, h') => evict_loop f (ck_track_remove (e_key e) (with_heap h' s)) (acc ++ [e_key e])
+    match heap_pop (l_heap s) with
+    | None => Some (acc, s)
+    | Some (e, h') =>
+        match fuel with
+        | O => None
+        | S f => evict_loop f (ck_track_remove (e_key e) (with_heap h' s)) (acc ++ [e_key e])
         end
     end
   else Some (acc, s).
